@@ -157,3 +157,29 @@ Definition s_step (supers : N -> list N) (s : sstate) (o : op) : sres * sstate :
       (SOk, {| sP := spec_underive (sP s) t p; sM := sM s; sPf := sPf s; sD := sD s |})
   | OCall k => (SRes (s_call supers s k), s)
   end.
+
+Fixpoint s_run (supers : N -> list N) (s : sstate) (ops : list op) : list sres * sstate :=
+  match ops with
+  | [] => ([], s)
+  | o :: r => let (x, s1) := s_step supers s o in
+              let (xs, s2) := s_run supers s1 r in (x :: xs, s2)
+  end.
+
+(** the situation in which the code is known to deviate (finding F-18d): the dispatch value
+    itself has a method, and some other matching key dominates it (through a preference
+    declared against the direction of isa?) *)
+Definition s_guard (supers : N -> list N) (s : sstate) (k : tag) : bool :=
+  match s_lookup tag tag_eqb k (sM s) with
+  | None => true
+  | Some _ =>
+      forallb (fun c => tag_eqb c k
+                        || negb (s_dominates tag tag_eqb (isa_ref_b supers (sP s)) (sPf s) c k))
+              (filter (fun c => isa_ref_b supers (sP s) k c) (map fst (sM s)))
+  end.
+
+Fixpoint s_guard_run (supers : N -> list N) (s : sstate) (ops : list op) : bool :=
+  match ops with
+  | [] => true
+  | o :: r => match o with OCall k => s_guard supers s k | _ => true end
+              && s_guard_run supers (snd (s_step supers s o)) r
+  end.
